@@ -63,7 +63,7 @@ def t1_cfgs(draw):
         cfg["iter_cap"] = draw(_cap(50))
     if draw(st.booleans()):
         cfg["iter_cap_layers"] = draw(_cap(50))
-    if draw(st.integers(0, 3)) == 0:
+    if draw(st.sampled_from([True, False, False, False])):
         cfg["relax_cap"] = draw(st.sampled_from([None, 0, 1, 2, 3, 5]))
     return cfg
 
@@ -74,7 +74,7 @@ def cases(draw):
     gids = draw(st.lists(st.sampled_from(["g1", "g2", "G", "γ", "g10", "main"]), min_size=ng, max_size=ng, unique=True))
     graphs = {gid: draw(world.graph_specs()) for gid in gids}
     text = draw(world.texts_for(graphs))
-    use_validated = draw(st.integers(0, 5)) == 0
+    use_validated = draw(st.sampled_from([False] * 5 + [True]))
     if use_validated:
         t1 = None
         over = {"t1": {"cache": {"enabled": False, "max_entries": 8, "ttl_s": 60}}}
@@ -90,14 +90,14 @@ def cases(draw):
         t1 = draw(t1_cfgs())
         over = None
     slice_caps = None
-    if draw(st.integers(0, 2)) == 0:
+    if draw(st.sampled_from([True, False, False])):
         slice_caps = {}
         if draw(st.booleans()):
             slice_caps["t1_iters"] = draw(st.sampled_from([0, 1, 2, 50]))
         if draw(st.booleans()):
             slice_caps["t1_pops"] = draw(st.sampled_from([0, 1, 2, 4, 10000]))
     perf = None
-    if draw(st.integers(0, 3)) == 0:
+    if draw(st.sampled_from([True, False, False, False])):
         perf = {"enabled": draw(st.sampled_from([True, True, False])),
                 "t1": {"caps": {"frontier": draw(st.sampled_from([0, 1, 2, 100])), "visited": draw(st.sampled_from([0, 1, 2, 100]))},
                        "dedupe_window": draw(st.sampled_from([0, 1, 4]))},
@@ -259,5 +259,5 @@ def replay_case(case):
 
 
 SUBCHECKS = [
-    Sub("rule", sub_rule, quick={"n": 250}, thorough={"n": 6000}, shards_quick=8, shards_thorough=16, replay=replay_case),
+    Sub("rule", sub_rule, quick={"n": 400}, thorough={"n": 6000}, shards_quick=8, shards_thorough=16, replay=replay_case),
 ]
